@@ -90,7 +90,7 @@ class AbstractBFGS(AbstractMLE):
             analysis=analysis,
             paths=self.paths,
             fom_is_log_likelihood=False,
-            resample_figure_of_merit=-np.inf,
+            resample_figure_of_merit=np.inf,
             convert_to_chi_squared=True,
             store_history=self.visualize,
         )
